@@ -375,6 +375,379 @@ fn sql_cases(run: &mut Run, rng: &mut Rng, n: u64) {
     }
 }
 
+
+// ============================================================================================
+// Follow-up: (a) ordered / streaming aggregation over every single-column key type that has its own
+// `GroupValues` implementation, (b) grouped TopK (`min|max … GROUP BY … ORDER BY agg LIMIT k`),
+// (c) GROUPING SETS / ROLLUP / CUBE.  An error or panic where the specification has rows is an
+// oracle failure.
+// ============================================================================================
+
+const KEY_TYPES: &[&str] = &["Boolean", "Int8", "Int16", "Int32", "Int64", "UInt8", "UInt16", "UInt32", "UInt64", "Float64", "Date32", "Utf8", "LargeUtf8", "Utf8View", "Binary", "BinaryView", "Dict(Int32,Utf8)"];
+
+/// typed key column from key indices (`None` = NULL key).  Index d is rendered as an increasing value of the type.
+fn key_array(kt: &str, idx: &[Option<usize>]) -> ArrayRef {
+    use arrow::array::*;
+    let ints: Int64Array = idx.iter().map(|d| d.map(|x| x as i64)).collect();
+    let strs: Vec<Option<String>> = idx.iter().map(|d| d.map(|x| format!("k{x}"))).collect();
+    let a: ArrayRef = Arc::new(ints);
+    let c = |dt: DataType| arrow::compute::cast(&a, &dt).unwrap();
+    match kt {
+        "Boolean" => Arc::new(idx.iter().map(|d| d.map(|x| x % 2 == 1)).collect::<BooleanArray>()),
+        "Int8" => c(DataType::Int8),
+        "Int16" => c(DataType::Int16),
+        "Int32" => c(DataType::Int32),
+        "Int64" => c(DataType::Int64),
+        "UInt8" => c(DataType::UInt8),
+        "UInt16" => c(DataType::UInt16),
+        "UInt32" => c(DataType::UInt32),
+        "UInt64" => c(DataType::UInt64),
+        "Float64" => c(DataType::Float64),
+        "Date32" => arrow::compute::cast(&c(DataType::Int32), &DataType::Date32).unwrap(),
+        "Utf8" => Arc::new(StringArray::from(strs)),
+        "LargeUtf8" => Arc::new(LargeStringArray::from(strs)),
+        "Utf8View" => Arc::new(StringViewArray::from(strs)),
+        "Binary" => arrow::compute::cast(&(Arc::new(StringArray::from(strs)) as ArrayRef), &DataType::Binary).unwrap(),
+        "BinaryView" => arrow::compute::cast(&(Arc::new(StringArray::from(strs)) as ArrayRef), &DataType::BinaryView).unwrap(),
+        _ => arrow::compute::cast(&(Arc::new(StringArray::from(strs)) as ArrayRef), &DataType::Dictionary(Box::new(DataType::Int32), Box::new(DataType::Utf8))).unwrap(),
+    }
+}
+
+/// key index of an output key cell (inverse of `key_array`, through the same rendering)
+fn key_index(kt: &str, col: &ArrayRef, row: usize, dom: usize) -> Result<Option<usize>, String> {
+    if col.is_null(row) {
+        return Ok(None);
+    }
+    let one = col.slice(row, 1);
+    for d in 0..dom.max(2) {
+        let probe = key_array(kt, &[Some(d)]);
+        let probe = if probe.data_type() != one.data_type() { arrow::compute::cast(&probe, one.data_type()).map_err(|e| e.to_string())? } else { probe };
+        let (a, b) = (arrow::compute::cast(&one, &DataType::Utf8).map_err(|e| e.to_string())?, arrow::compute::cast(&probe, &DataType::Utf8).map_err(|e| e.to_string())?);
+        use arrow::array::AsArray;
+        if a.as_string::<i32>().value(0) == b.as_string::<i32>().value(0) {
+            return Ok(Some(d));
+        }
+    }
+    Err(format!("output key {:?} is not one of the input keys", one))
+}
+
+fn typed_ordered_cases(run: &mut Run, rng: &mut Rng, n: u64) {
+    for i in 0..n {
+        let kt = *rng.pick(KEY_TYPES);
+        let dom = if kt == "Boolean" { 2 } else { *rng.pick(&[1usize, 2, 3, 6]) };
+        let nrows = *rng.pick(&[1usize, 3, 8, 20, 60]);
+        let nf_ = 1 + rng.below(2) as usize;
+        let fns: Vec<&'static str> = (0..nf_).map(|_| *rng.pick(&["count", "sum", "min", "max"])).collect();
+        // rows: (key index | NULL, values…); NULL keys frequent
+        let mut rows: Vec<(Option<usize>, Vec<Cell>)> = (0..nrows)
+            .map(|_| (if rng.chance(1, 4) { None } else { Some(rng.below(dom as u64) as usize) }, (0..nf_).map(|_| if rng.chance(1, 6) { None } else { Some(rng.range(-4, 9)) }).collect()))
+            .collect();
+        // 0 = unordered (NULL keys may show up late), 1 = declared and actually sorted
+        let sorted = rng.chance(3, 4);
+        let (desc, nulls_first) = (rng.chance(1, 2), rng.chance(1, 2));
+        if sorted {
+            rows.sort_by(|a, b| match (a.0, b.0) {
+                (None, None) => std::cmp::Ordering::Equal,
+                (None, _) => if nulls_first { std::cmp::Ordering::Less } else { std::cmp::Ordering::Greater },
+                (_, None) => if nulls_first { std::cmp::Ordering::Greater } else { std::cmp::Ordering::Less },
+                (Some(x), Some(y)) => {
+                    // Boolean keys: index parity is the value
+                    let (x, y) = if kt == "Boolean" { (x % 2, y % 2) } else { (x, y) };
+                    if desc { y.cmp(&x) } else { x.cmp(&y) }
+                }
+            });
+        }
+        let kfield = key_array(kt, &[]).data_type().clone();
+        let mut fields = vec![Field::new("k0", kfield, true)];
+        fields.extend((0..nf_).map(|j| Field::new(format!("v{j}"), DataType::Int64, true)));
+        let schema: SchemaRef = Arc::new(Schema::new(fields));
+        let maxb = *rng.pick(&[1usize, 2, 3, 7]);
+        let mut batches = vec![];
+        let mut j = 0;
+        while j < rows.len() {
+            let e = (j + 1 + rng.below(maxb as u64) as usize).min(rows.len());
+            let mut cols: Vec<ArrayRef> = vec![key_array(kt, &rows[j..e].iter().map(|r| r.0).collect::<Vec<_>>())];
+            for c in 0..nf_ {
+                cols.push(Arc::new(rows[j..e].iter().map(|r| r.1[c]).collect::<Int64Array>()));
+            }
+            batches.push(RecordBatch::try_new(schema.clone(), cols).unwrap());
+            j = e;
+        }
+        let mut src = MemorySourceConfig::try_new(&[batches], schema.clone(), None).unwrap();
+        if sorted {
+            let ord = LexOrdering::new([PhysicalSortExpr { expr: col("k0", &schema).unwrap(), options: SortOptions { descending: desc, nulls_first } }]).unwrap();
+            src = src.try_with_sort_information(vec![ord]).unwrap();
+        }
+        let input: Arc<dyn ExecutionPlan> = DataSourceExec::from_data_source(src);
+        // the Lean / Rust spec sees Boolean keys through their value (index parity)
+        let krow = |d: Option<usize>| -> Cell { d.map(|x| if kt == "Boolean" { (x % 2) as i64 } else { x as i64 }) };
+        let case = Case { nk: 1, fns: fns.clone(), rows: rows.iter().map(|r| std::iter::once(krow(r.0)).chain(r.1.iter().cloned()).collect()).collect(), sorted_prefix: sorted as usize };
+        let group_by = PhysicalGroupBy::new_single(vec![(col("k0", &schema).unwrap(), "k0".to_string())]);
+        let aggs = aggr_exprs(&case, &schema);
+        let filters = vec![None; aggs.len()];
+        let two_stage = rng.chance(1, 2);
+        let plan: Result<Arc<dyn ExecutionPlan>, String> = (|| {
+            let e = |x: datafusion_common::DataFusionError| x.to_string();
+            if two_stage {
+                let partial = Arc::new(AggregateExec::try_new(AggregateMode::Partial, group_by.clone(), aggs.clone(), filters.clone(), input.clone(), schema.clone()).map_err(e)?);
+                Ok(Arc::new(AggregateExec::try_new(AggregateMode::Final, group_by.as_final(), aggs.clone(), filters.clone(), partial, schema.clone()).map_err(e)?) as Arc<dyn ExecutionPlan>)
+            } else {
+                Ok(Arc::new(AggregateExec::try_new(AggregateMode::Single, group_by.clone(), aggs.clone(), filters.clone(), input.clone(), schema.clone()).map_err(e)?) as Arc<dyn ExecutionPlan>)
+            }
+        })();
+        let sig = format!("typed-ordered#{i} key={kt} sorted={sorted} desc={desc} nulls_first={nulls_first} two_stage={two_stage} maxbatch={maxb}");
+        let plan = match plan {
+            Ok(p) => p,
+            Err(e) => {
+                run.oracle(false, &format!("{sig} plan-construction"), &e);
+                continue;
+            }
+        };
+        let bs = *rng.pick(&[1usize, 2, 5, 8192]);
+        let ctx = Arc::new(TaskContext::default().with_session_config(SessionConfig::new().with_batch_size(bs)));
+        let rt = tokio::runtime::Builder::new_current_thread().enable_all().build().unwrap();
+        let res = hutil::catch(std::panic::AssertUnwindSafe(|| rt.block_on(async { tokio::time::timeout(Duration::from_secs(60), datafusion_physical_plan::collect(plan, ctx)).await })));
+        run.count(&format!("typed-ordered:{kt}"));
+        run.count(if sorted { "typed-ordered:sorted-input" } else { "typed-ordered:unordered-input" });
+        let out = match res {
+            Err(p) => Outcome::Error(format!("panic: {p}")),
+            Ok(Err(_)) => Outcome::Hang,
+            Ok(Ok(Err(e))) => Outcome::Error(e.to_string()),
+            Ok(Ok(Ok(b))) => {
+                // decode the key column back to key indices, then reuse the Int64 line format
+                let decoded: Result<Vec<RecordBatch>, String> = b
+                    .iter()
+                    .map(|rb| {
+                        let kc = rb.column(0);
+                        let ks: Vec<Cell> = (0..rb.num_rows()).map(|r| key_index(kt, kc, r, dom).map(|d| krow(d))).collect::<Result<_, _>>()?;
+                        let mut cols: Vec<ArrayRef> = vec![Arc::new(ks.into_iter().collect::<Int64Array>())];
+                        cols.extend(rb.columns()[1..].iter().cloned());
+                        let fields: Vec<Field> = cols.iter().enumerate().map(|(ci, c)| Field::new(format!("o{ci}"), c.data_type().clone(), true)).collect();
+                        RecordBatch::try_new(Arc::new(Schema::new(fields)), cols).map_err(|e| e.to_string())
+                    })
+                    .collect();
+                match decoded.and_then(|d| lines_of(&d, 1)) {
+                    Ok(l) => Outcome::Lines(l),
+                    Err(e) => Outcome::Error(e),
+                }
+            }
+        };
+        finish(run, &sig, &case, out, true);
+    }
+}
+
+// ------------------------------------------------------------------------------------------ SQL helpers
+fn sql_collect(cfg: SessionConfig, schema: SchemaRef, batches: Vec<Vec<RecordBatch>>, sql: &str) -> Result<(String, Vec<RecordBatch>), String> {
+    let rt = tokio::runtime::Builder::new_current_thread().enable_all().build().unwrap();
+    let ctx = SessionContext::new_with_config(cfg);
+    let res = hutil::catch(std::panic::AssertUnwindSafe(|| {
+        rt.block_on(async {
+            let t = MemTable::try_new(schema.clone(), batches.clone()).map_err(|e| e.to_string())?;
+            ctx.register_table("t", Arc::new(t)).map_err(|e| e.to_string())?;
+            tokio::time::timeout(Duration::from_secs(60), async {
+                let df = ctx.sql(sql).await.map_err(|e| e.to_string())?;
+                let plan = df.clone().create_physical_plan().await.map_err(|e| e.to_string())?;
+                let shown = datafusion::physical_plan::displayable(plan.as_ref()).indent(false).to_string();
+                let out = df.collect().await.map_err(|e| e.to_string())?;
+                Ok::<_, String>((shown, out))
+            })
+            .await
+            .map_err(|_| "hang: no result within 60 s".to_string())?
+        })
+    }));
+    match res {
+        Err(p) => Err(format!("panic: {p}")),
+        Ok(r) => r,
+    }
+}
+
+fn grouped_topk_cases(run: &mut Run, rng: &mut Rng, n: u64) {
+    for i in 0..n {
+        let f = *rng.pick(&["min", "max"]);
+        // the limit is pushed into the aggregation only for `max … DESC` / `min … ASC`: make that the majority
+        let desc = if rng.chance(3, 4) { f == "max" } else { f != "max" };
+        let nulls_first = rng.chance(1, 2);
+        let k = *rng.pick(&[1usize, 2, 3, 5]);
+        let kdom = *rng.pick(&[2i64, 4, 8]);
+        let nrows = *rng.pick(&[1usize, 4, 10, 30]);
+        // groups whose values are all NULL: every row of a "null group" has v = NULL
+        let null_groups: Vec<i64> = (0..kdom).filter(|_| rng.chance(1, 3)).collect();
+        let utf8_key = rng.chance(1, 2);
+        let rows: Vec<Row> = (0..nrows)
+            .map(|_| {
+                let key = rng.range(0, kdom - 1);
+                let v = if null_groups.contains(&key) || rng.chance(1, 8) { None } else { Some(rng.range(0, 4)) };
+                vec![Some(key), v]
+            })
+            .collect();
+        let schema: SchemaRef = Arc::new(Schema::new(vec![Field::new("k0", if utf8_key { DataType::Utf8 } else { DataType::Int64 }, true), Field::new("v0", DataType::Int64, true)]));
+        let nparts = 1 + rng.below(3) as usize;
+        let mut parts: Vec<Vec<Row>> = vec![vec![]; nparts];
+        for r in &rows {
+            parts[rng.below(nparts as u64) as usize].push(r.clone());
+        }
+        let maxb = *rng.pick(&[1usize, 2, 5]);
+        let batches: Vec<Vec<RecordBatch>> = parts
+            .iter()
+            .map(|p| {
+                let mut out = vec![];
+                let mut j = 0;
+                while j < p.len() {
+                    let e = (j + 1 + rng.below(maxb as u64) as usize).min(p.len());
+                    let keys: Int64Array = p[j..e].iter().map(|r| r[0]).collect();
+                    let kcol: ArrayRef = if utf8_key { arrow::compute::cast(&(Arc::new(keys) as ArrayRef), &DataType::Utf8).unwrap() } else { Arc::new(keys) };
+                    out.push(RecordBatch::try_new(schema.clone(), vec![kcol, Arc::new(p[j..e].iter().map(|r| r[1]).collect::<Int64Array>())]).unwrap());
+                    j = e;
+                }
+                out
+            })
+            .collect();
+        let sql = format!("SELECT k0, {f}(v0) AS m FROM t GROUP BY k0 ORDER BY m {} NULLS {} LIMIT {k}", if desc { "DESC" } else { "ASC" }, if nulls_first { "FIRST" } else { "LAST" });
+        let cfg = SessionConfig::new().with_target_partitions(1 + rng.below(3) as usize).with_batch_size(*rng.pick(&[1usize, 2, 8192])).set_bool("datafusion.optimizer.enable_topk_aggregation", true);
+        let sig = format!("grouped-topk#{i} `{sql}` utf8_key={utf8_key} rows={}", rows.iter().map(|r| format!("({} {})", cell(r[0]), cell(r[1]))).collect::<Vec<_>>().join(""));
+        match sql_collect(cfg, schema, batches, &sql) {
+            Err(e) => run.oracle(false, &format!("{sig} error"), &e),
+            Ok((shown, out)) => {
+                run.count(if shown.contains("lim=[") { "grouped-topk:pushed-into-aggregate" } else { "grouped-topk:plain-sort-limit" });
+                if !null_groups.is_empty() {
+                    run.count("grouped-topk:with-all-null-groups");
+                }
+                let got: Result<Vec<(Cell, Cell)>, String> = (|| {
+                    let mut v = vec![];
+                    for b in &out {
+                        let kc = arrow::compute::cast(b.column(0), &DataType::Int64).map_err(|e| e.to_string())?;
+                        let mc = arrow::compute::cast(b.column(1), &DataType::Int64).map_err(|e| e.to_string())?;
+                        let (kc, mc) = (kc.as_any().downcast_ref::<Int64Array>().unwrap().clone(), mc.as_any().downcast_ref::<Int64Array>().unwrap().clone());
+                        for r in 0..b.num_rows() {
+                            v.push((if kc.is_null(r) { None } else { Some(kc.value(r)) }, if mc.is_null(r) { None } else { Some(mc.value(r)) }));
+                        }
+                    }
+                    Ok(v)
+                })();
+                let got = match got {
+                    Ok(g) => g,
+                    Err(e) => {
+                        run.oracle(false, &format!("{sig} decode"), &e);
+                        continue;
+                    }
+                };
+                // Lean: judged against the spec's full aggregate
+                let req = format!(
+                    "({f} {} {} {k} ({}) ({}))",
+                    if desc { "t" } else { "f" },
+                    if nulls_first { "t" } else { "f" },
+                    rows.iter().map(|r| format!("({} {})", cell(r[0]), cell(r[1]))).collect::<Vec<_>>().join(" "),
+                    got.iter().map(|(a, b)| format!("({} {})", cell(*a), cell(*b))).collect::<Vec<_>>().join(" ")
+                );
+                run.case("topk", &req, "ok", !null_groups.is_empty() && nrows >= 4);
+                // Rust oracle: top-k relation on the full aggregate
+                let mut full: BTreeMap<Cell, Cell> = BTreeMap::new();
+                for r in &rows {
+                    let e = full.entry(r[0]).or_insert(None);
+                    *e = match (*e, r[1]) {
+                        (None, x) => x,
+                        (x, None) => x,
+                        (Some(a), Some(b)) => Some(if f == "min" { a.min(b) } else { a.max(b) }),
+                    };
+                }
+                let before = |a: Cell, b: Cell| -> std::cmp::Ordering {
+                    match (a, b) {
+                        (None, None) => std::cmp::Ordering::Equal,
+                        (None, _) => if nulls_first { std::cmp::Ordering::Less } else { std::cmp::Ordering::Greater },
+                        (_, None) => if nulls_first { std::cmp::Ordering::Greater } else { std::cmp::Ordering::Less },
+                        (Some(x), Some(y)) => if desc { y.cmp(&x) } else { x.cmp(&y) },
+                    }
+                };
+                let mut ok = got.len() == k.min(full.len()) && got.windows(2).all(|w| before(w[0].1, w[1].1) != std::cmp::Ordering::Greater) && got.iter().all(|(kk, m)| full.get(kk) == Some(m));
+                let keys: Vec<Cell> = got.iter().map(|g| g.0).collect();
+                ok &= keys.iter().collect::<std::collections::BTreeSet<_>>().len() == keys.len();
+                if let Some(last) = got.last() {
+                    ok &= full.iter().filter(|(kk, _)| !keys.contains(kk)).all(|(_, m)| before(*m, last.1) != std::cmp::Ordering::Less);
+                }
+                run.oracle(ok, &sig, &format!("full aggregate {full:?} returned {got:?}"));
+            }
+        }
+    }
+}
+
+fn grouping_sets_cases(run: &mut Run, rng: &mut Rng, n: u64) {
+    for i in 0..n {
+        // emphasis on 7, 8, 9 grouping columns (grouping-id width boundary)
+        let m = *rng.pick(&[1usize, 2, 3, 5, 7, 7, 8, 8, 8, 9, 9]);
+        let form = rng.below(3); // 0 ROLLUP, 1 CUBE, 2 explicit GROUPING SETS (with duplicates)
+        let nrows = if form == 1 && m >= 7 { *rng.pick(&[1usize, 2, 4]) } else { *rng.pick(&[0usize, 1, 3, 8]) };
+        let fns: Vec<&'static str> = vec![*rng.pick(&["count", "sum", "min", "max"])];
+        let rows: Vec<Row> = (0..nrows)
+            .map(|_| {
+                let mut r: Row = (0..m).map(|_| if rng.chance(1, 6) { None } else { Some(rng.range(0, 1)) }).collect();
+                r.push(if rng.chance(1, 6) { None } else { Some(rng.range(-3, 6)) });
+                r
+            })
+            .collect();
+        let sets: Vec<Vec<usize>> = match form {
+            0 => (0..=m).rev().map(|l| (0..l).collect()).collect(),
+            1 => (0..(1usize << m)).map(|mask| (0..m).filter(|c| mask & (1 << c) != 0).collect()).collect(),
+            _ => {
+                let ns = 1 + rng.below(4) as usize;
+                let mut v: Vec<Vec<usize>> = (0..ns).map(|_| (0..m).filter(|_| rng.chance(1, 2)).collect()).collect();
+                v.insert(0, (0..m).collect()); // every selected column must occur in some grouping set
+                if rng.chance(1, 2) {
+                    let d = v[0].clone();
+                    v.push(d); // a duplicate grouping set
+                }
+                v
+            }
+        };
+        let cols = (0..m).map(|c| format!("k{c}")).collect::<Vec<_>>();
+        let clause = match form {
+            0 => format!("ROLLUP ({})", cols.join(", ")),
+            1 => format!("CUBE ({})", cols.join(", ")),
+            _ => format!("GROUPING SETS ({})", sets.iter().map(|s| format!("({})", s.iter().map(|c| cols[*c].clone()).collect::<Vec<_>>().join(", "))).collect::<Vec<_>>().join(", ")),
+        };
+        let agg = format!("{}(v0)", fns[0]);
+        let sql = format!("SELECT {}, {agg} FROM t GROUP BY {clause}", cols.join(", "));
+        let schema = schema_of(m, 1);
+        let maxb = *rng.pick(&[1usize, 3, 64]);
+        let batches = vec![split_batches(rng, &schema, &rows, maxb)];
+        let cfg = SessionConfig::new().with_target_partitions(1 + rng.below(3) as usize).with_batch_size(*rng.pick(&[2usize, 8192]));
+        let dup = form == 2 && sets.iter().enumerate().any(|(a, s)| sets[..a].contains(s));
+        let sig = format!("grouping-sets#{i} cols={m} form={} sets={} dup={dup} `{}` rows={}", ["rollup", "cube", "sets"][form as usize], sets.len(), if sql.len() > 200 { &sql[..200] } else { &sql }, rows.iter().map(|r| format!("({})", r.iter().map(|x| cell(*x)).collect::<Vec<_>>().join(" "))).collect::<Vec<_>>().join(""));
+        run.count(&format!("grouping-sets:cols={m}"));
+        run.count(&format!("grouping-sets:{}", ["rollup", "cube", "explicit"][form as usize]));
+        // Rust spec: bag union of the per-set aggregations with masked keys
+        let mut want: Vec<String> = vec![];
+        for st in &sets {
+            let masked: Vec<Row> = rows.iter().map(|r| (0..m).map(|c| if st.contains(&c) { r[c] } else { None }).chain(std::iter::once(r[m])).collect()).collect();
+            let mut lines = spec(m, &fns, &masked);
+            if masked.is_empty() && st.is_empty() {
+                // the empty grouping set over an empty input still yields one row (global aggregate)
+                lines = vec![format!("{}|{}", vec!["n"; m].join(","), if fns[0] == "count" { "0" } else { "n" })];
+            }
+            want.extend(lines);
+        }
+        want.sort();
+        match sql_collect(cfg, schema, batches, &sql) {
+            Err(e) => run.oracle(false, &format!("{sig} error"), &e),
+            Ok((_, out)) => match lines_of(&out, m) {
+                Err(e) => run.oracle(false, &format!("{sig} decode"), &e),
+                Ok(mut l) => {
+                    l.sort();
+                    if !(rows.is_empty()) {
+                        let req = format!(
+                            "({m} ({}) ({}) ({}))",
+                            fns.join(" "),
+                            sets.iter().map(|s| format!("({})", s.iter().map(|c| c.to_string()).collect::<Vec<_>>().join(" "))).collect::<Vec<_>>().join(" "),
+                            rows.iter().map(|r| format!("({})", r.iter().map(|x| cell(*x)).collect::<Vec<_>>().join(" "))).collect::<Vec<_>>().join(" ")
+                        );
+                        run.case("gsets", &req, &l.join(";"), m >= 7);
+                    }
+                    run.oracle(l == want, &sig, &format!("expected {} got {}", want.join(";"), l.join(";")));
+                }
+            },
+        }
+    }
+}
+
 pub fn run(run: &mut Run, args: &Args) {
     hutil::quiet_panics();
     let mut rng = Rng::new(args.seed);
@@ -384,4 +757,8 @@ pub fn run(run: &mut Run, args: &Args) {
     manual_cases(run, &mut rng, false, n1);
     manual_cases(run, &mut rng, true, n2);
     sql_cases(run, &mut rng, n3);
+    let (n4, n5, n6) = (run.budget(400, 8_000), run.budget(250, 5_000), run.budget(150, 2_500));
+    typed_ordered_cases(run, &mut rng, n4);
+    grouped_topk_cases(run, &mut rng, n5);
+    grouping_sets_cases(run, &mut rng, n6);
 }
